@@ -245,3 +245,132 @@ Proof.
   destruct (dem_do_boxed _ _ _ _ _ _ _ _ _ HU1 Hlen HB0 Hd) as [HV _].
   exact (dex_boxed _ _ _ _ _ _ _ _ _ Hv HB HV H).
 Qed.
+
+(* ---------- C07: the mating proposes exactly one offspring per population member ---------- *)
+Local Open Scope nat_scope.
+Section Len.
+Context {N : Num.num}.
+
+Lemma fill_cols_length n_pop targets : forall k rows s P s',
+  fill_cols (T := N) k n_pop rows targets s = Ok (P, s') -> length rows = length targets -> length P = length targets.
+Proof.
+  induction k as [|k IH]; intros rows s P s' H Hl; cbn [fill_cols] in H.
+  - apply ret_ok in H as [<- _]. exact Hl.
+  - apply bind_ok in H as (col & s1 & Hc & H). apply fill_col_spec in Hc as (Hlc & _ & _).
+    eapply IH; [exact H|]. rewrite add_col_length; congruence.
+Qed.
+
+Lemma select_length v n n_par ranks s P s' :
+  select (T := N) v n n n_par ranks s = Ok (P, s') -> length P = n.
+Proof.
+  destruct v; cbn [select].
+  - intro H. apply fill_cols_length in H; [now rewrite seq_length in H|now rewrite repeat_length, seq_length].
+  - intro H. apply fill_cols_length in H; [now rewrite seq_length in H|now rewrite repeat_length, seq_length].
+  - destruct (negb (n =? n) || (n_par <? 3)); [intro H; cbv in H; discriminate|].
+    intro H. apply fill_cols_length in H; [now rewrite seq_length in H|now rewrite map_length].
+  - destruct (negb (n =? n) || (n_par <? 3)); [intro H; cbv in H; discriminate|].
+    intro H. apply bind_ok in H as (P1 & s1 & H1 & H2).
+    apply fill_cols_length in H1; [|now rewrite map_length]. rewrite seq_length in H1.
+    apply fill_cols_length in H2; [now rewrite seq_length in H2|rewrite map2_length, seq_length; lia].
+  - intro H. apply bind_ok in H as (P1 & s1 & H1 & H2). apply ret_ok in H2 as [<- _].
+    apply fill_cols_length in H1; [|now rewrite repeat_length, seq_length]. now rewrite map_length, H1, seq_length.
+  - destruct (Nat.even n_par); [intro H; cbv in H; discriminate|].
+    intro H. apply bind_ok in H as (P1 & s1 & H1 & H2). apply ret_ok in H2 as [<- _].
+    apply fill_cols_length in H1; [|now rewrite repeat_length, seq_length]. now rewrite map_length, H1, seq_length.
+Qed.
+
+Lemma all_some_length {A} (l : list (option A)) r : all_some l = Some r -> length r = length l.
+Proof.
+  revert r. induction l as [|[a|] l IH]; cbn; intros r H; try discriminate; [inversion H; reflexivity|].
+  destruct (all_some l) as [r'|]; [|discriminate]. inversion H; subst. cbn. f_equal. now apply IH.
+Qed.
+
+Lemma all_some_members {A} (l : list (option A)) r : all_some l = Some r -> forall a, In a r -> In (Some a) l.
+Proof.
+  revert r. induction l as [|[a|] l IH]; cbn; intros r H x Hx; try discriminate; [inversion H; subst; destruct Hx|].
+  destruct (all_some l) as [r'|]; [|discriminate]. inversion H; subst. destruct Hx as [<-|Hx]; [now left|right; eauto].
+Qed.
+
+(* every matrix of the parent tensor has one row per row of the index matrix *)
+Lemma tensor_rows (popX : list (list N)) P n_par Xs :
+  tensor popX P n_par = Some Xs -> Forall (fun Xm => length Xm = length P) Xs /\ length Xs = n_par.
+Proof.
+  unfold tensor. intro H. split.
+  - apply Forall_forall. intros Xm Hm. apply (all_some_members _ _ H) in Hm.
+    apply in_map_iff in Hm as (j & Hj & _). unfold gather in Hj. apply all_some_length in Hj. now rewrite map_length in Hj.
+  - apply all_some_length in H. now rewrite map_length, seq_length in H.
+Qed.
+
+Lemma madd_length (A B : list (list N)) : length (madd A B) = Nat.min (length A) (length B).
+Proof. unfold madd. apply map2_length. Qed.
+
+Lemma diff_mat_length gamma (F : list N) J (Xi Xj : list (list N)) n v :
+  length F = n -> length Xi = n -> length Xj = n -> (J = None \/ exists us, J = Some (reshape n v us)) ->
+  length (diff_mat gamma F J Xi Xj) = n.
+Proof.
+  intros HF Hi Hj HJ. unfold diff_mat. rewrite map2_length, !combine_length.
+  assert (length (jrows J (length F)) = n).
+  { destruct HJ as [->|[us ->]]; cbn; [rewrite repeat_length; exact HF|rewrite map_length; apply reshape_length]. }
+  lia.
+Qed.
+
+Lemma sum_diffs_length gamma n v : forall rest FJ acc s s' fc,
+  factors_from (N := N) fc gamma n v FJ s s' -> Forall (fun Xm => length Xm = n) rest -> length acc = n ->
+  length (sum_diffs gamma rest FJ acc) = n.
+Proof.
+  intros rest FJ acc s s' fc HF. revert rest acc.
+  induction HF as [|F J FJ s s1 s2 s' Hl HFf HJ Hrest IH]; intros rest acc Hr Ha.
+  - destruct rest as [|Xi [|Xj rest]]; exact Ha.
+  - destruct rest as [|Xi [|Xj rest]]; try exact Ha. cbn [sum_diffs].
+    pose proof (Forall_inv Hr) as Hi. pose proof (Forall_inv (Forall_inv_tail Hr)) as Hj.
+    pose proof (Forall_inv_tail (Forall_inv_tail Hr)) as Hr''. cbn beta in Hi, Hj.
+    apply IH; [assumption|].
+    assert (HJ' : J = None \/ exists us, J = Some (reshape n v us)).
+    { destruct gamma; cbn in HJ; [right; destruct HJ as (us & _ & _ & ->); eauto|left; tauto]. }
+    rewrite madd_length, (diff_mat_length gamma F J Xi Xj n v Hl Hi Hj HJ'). lia.
+Qed.
+End Len.
+
+Section Len2.
+Context {N : Num.num}.
+
+Lemma de_mutation_rows fc gamma (Xs : list (list (list N))) n s V d s' :
+  de_mutation (N := N) fc gamma Xs s = Ok ((V, d), s') -> Forall (fun Xm => length Xm = n) Xs -> Xs <> [] ->
+  length V = n.
+Proof.
+  intros H HX Hne. destruct Xs as [|X0 rest]; [congruence|].
+  apply de_mutation_spec in H as (_ & FJ & _ & HF & -> & ->).
+  pose proof (Forall_inv HX) as H0. pose proof (Forall_inv_tail HX) as Hr. cbn beta in H0.
+  rewrite madd_length, H0. rewrite H0 in HF.
+  rewrite (sum_diffs_length gamma n (length (hd [] X0)) rest FJ _ s s' fc HF Hr); [lia|].
+  unfold zeros. apply repeat_length.
+Qed.
+
+Lemma dem_do_rows fc gamma st xl xu (Xs : list (list (list N))) n s V s' :
+  dem_do (N := N) fc gamma st (Some (xl, xu)) Xs s = Ok (V, s') -> Forall (fun Xm => length Xm = n) Xs -> Xs <> [] ->
+  length V = n.
+Proof.
+  intros H HX Hne. unfold dem_do in H. apply bind_ok in H as ([V0 d] & s1 & Hm & H).
+  apply bind_ok in H as (zs & s2 & _ & H). apply ret_ok in H as [<- _]. rewrite reshape_length.
+  eapply de_mutation_rows; eauto.
+Qed.
+
+Lemma apply_mask_length {A} rows (Xm Vm : list (list A)) :
+  length (apply_mask rows Xm Vm) = Nat.min (length rows) (Nat.min (length Xm) (length Vm)).
+Proof. unfold apply_mask. apply map3_length. Qed.
+
+(* exactly one trial vector per population member *)
+Lemma variant_do_length (c : vcfg (N := N)) popX ranks xl xu s U s' :
+  variant_do c popX ranks (Some (xl, xu)) s = Ok (U, s') -> 0 < length (hd [] popX) -> length U = length popX.
+Proof.
+  intros H Hv. unfold variant_do in H.
+  apply bind_ok in H as (P & s1 & Hs & H). apply bind_ok in H as (Xs & s2 & Ht & H).
+  apply bind_ok in H as (V & s3 & Hd & H). apply lift_ok in Ht as [Ht <-].
+  apply select_length in Hs. apply tensor_rows in Ht as [Hrows Hlen]. rewrite Hs in Hrows.
+  assert (Hne : Xs <> []) by (intro E; subst; cbn in Hlen; unfold n_parents_of in Hlen; lia).
+  apply (dem_do_rows _ _ _ _ _ _ _ _ _ _ Hd Hrows) in Hne.
+  unfold dex in H. apply bind_ok in H as (rows & s4 & Hm & H). apply ret_ok in H as [<- _].
+  apply cross_mask_ok in Hm as [Hn _]; [|assumption].
+  rewrite apply_mask_length, Hn, Hne. lia.
+Qed.
+End Len2.
